@@ -1,4 +1,7 @@
 pub mod c01;
+pub mod c03;
+pub mod c05;
+pub mod c06;
 pub mod c07;
 pub mod c08;
 pub mod c08_spec;
@@ -8,13 +11,24 @@ pub mod c11;
 pub mod c12;
 pub mod c13;
 pub mod c14;
+pub mod c15;
+pub mod c16;
+pub mod c16_prog;
+pub mod c17;
+pub mod c18;
+pub mod c19;
+pub mod c20;
 pub mod c24;
+pub mod c25;
 
 use crate::engine::Engine;
 
 pub fn dispatch(id: &str) -> Option<fn(&mut Engine)> {
     match id {
         "C01" => Some(c01::run),
+        "C03" => Some(c03::run),
+        "C05" => Some(c05::run),
+        "C06" => Some(c06::run),
         "C07" => Some(c07::run),
         "C08" => Some(c08::run),
         "C09" => Some(c09::run),
@@ -23,7 +37,14 @@ pub fn dispatch(id: &str) -> Option<fn(&mut Engine)> {
         "C12" => Some(c12::run),
         "C13" => Some(c13::run),
         "C14" => Some(c14::run),
+        "C15" => Some(c15::run),
+        "C16" => Some(c16::run),
+        "C17" => Some(c17::run),
+        "C18" => Some(c18::run),
+        "C19" => Some(c19::run),
+        "C20" => Some(c20::run),
         "C24" => Some(c24::run),
+        "C25" => Some(c25::run),
         _ => None,
     }
 }
